@@ -4,6 +4,6 @@
 cd "$(dirname "$0")"
 mkdir -p gen ../../build/include/rkcommon
 python3 ../../lib/mkversion.py >/dev/null 2>&1
-python3 ../../tools/cxx2coq/cxx2coq.py ../../tools/cxx2coq/inst/box.cpp gen/GenBox.v.new -D RKCOMMON_NO_SIMD \
+python3 ../../tools/cxx2coq/cxx2coq.py ../../tools/cxx2coq/inst/box.cpp gen/GenBox.v.new -D RKCOMMON_NO_SIMD --filter2 std::less \
   --only '^(range_t_|area__|volume__|touchingOrOverlapping__|intersectionOf__|disjoint__|center__|op_(add|mul|eq|ne)__.*range_t|xfmBounds__|xfmPoint__AffineSpaceT_LinearSpace3|intersectRayBox__|anyLessThan__)' \
   && { cmp -s gen/GenBox.v.new gen/GenBox.v || mv gen/GenBox.v.new gen/GenBox.v; rm -f gen/GenBox.v.new; }
